@@ -26,3 +26,13 @@ package storage
 //@   at call common.AggregateTokenContextToBytes : assert called(RWMutex.Lock) && arg[0] == context
 //@   at call hex.EncodeToString#1 : assert sameslice(arg[0], ret(common.AggregateTokenContextToBytes)[0])
 //@   precedes RWMutex.Lock RWMutex.Unlock
+
+// BoltDB store, metadata visitor (token enable / disable / remove): flipping a flag rewrites the record as the *payload*
+// that was stored plus the new metadata - never the stored record itself wrapped once more - under the same id, so a
+// disabled-and-enabled token still gives its owner the original value.
+//@ func (b *boltdbStorage) visitBucket(ctxBucket *bolt.Bucket, cb func(dataLength int, metadata common.TokenMetadata) (common.TokenAction, error)) (err error)
+//@   props C10
+//@   at call common.ExtractMetadata : assert sameslice(arg[0], v)
+//@   at call common.EmbedMetadata : assert payload-kept: sameslice(arg[0], ret(common.ExtractMetadata)[0]) && ret(common.ExtractMetadata)[2] == nil
+//@   at call Bucket.Put : assert same-id-new-metadata: recv == ctxBucket && sameslice(arg[0], id) && sameslice(arg[1], ret(common.EmbedMetadata)[0])
+//@   at call Bucket.Delete : assert recv == ctxBucket && sameslice(arg[0], id)
